@@ -137,6 +137,11 @@ pub struct SubSpec {
     pub fifo: bool,
     /// C13: also create an unbatched twin with the same pipeline (fixed-parameter pipelines only)
     pub twin: bool,
+    /// how the VectorSubscriber handle becomes a stream: 0 = converted at once (VectorObserver::
+    /// into_parts); 1 = `values()` at once, `into_stream()` / `into_batched_stream()` only at the
+    /// first poll; 2 = `values()` at once, `into_values_and_(batched_)stream()` at the first poll
+    #[serde(default)]
+    pub convert: u8,
 }
 
 #[derive(Clone, Copy, Debug, Serialize, Deserialize, PartialEq, Eq, Hash)]
@@ -171,6 +176,9 @@ pub struct VecCase {
     /// is judged like anything else
     #[serde(default)]
     pub strict: bool,
+    /// all polls of the case use one waker (one task driving every stream)
+    #[serde(default)]
+    pub shared_waker: bool,
 }
 
 /// resolve a fraction against `n` choices (0..n); n == 0 gives 0
